@@ -19,12 +19,14 @@ std::vector<Scene> scenes(int dim) {
     { Scene s; s.name = "square outline 40 points"; for (int i = 0; i < 10; ++i) { double a = -1 + 0.2 * i + 0.03; s.pts.push_back(V3(a, -1, 0)); s.nrm.push_back(V3(0, -1, 0)); s.pts.push_back(V3(1, a, 0)); s.nrm.push_back(V3(1, 0, 0)); s.pts.push_back(V3(a, 1, 0)); s.nrm.push_back(V3(0, 1, 0)); s.pts.push_back(V3(-1, a, 0)); s.nrm.push_back(V3(-1, 0, 0)); } v.push_back(s); }
     { Scene s; s.name = "circle 12 points radius 3 about (5,1)"; for (int i = 0; i < 12; ++i) { LD a = 0.5235987755982988L * i + 0.1L; s.pts.push_back(V3(5 + 3 * cosl(a), 1 + 3 * sinl(a), 0)); s.nrm.push_back(V3(cosl(a), sinl(a), 0)); } v.push_back(s); }
     { Scene s; s.name = "corridor + end wall 500 points over 20 m"; for (int i = 0; i < 500; ++i) { auto h = regref::pattern(i); if (i % 5 == 0) { s.pts.push_back(V3(10, 2 * h[1], 0)); s.nrm.push_back(V3(-1, 0, 0)); } else if (i % 2) { s.pts.push_back(V3(10 * h[0], 2, 0)); s.nrm.push_back(V3(0, -1, 0)); } else { s.pts.push_back(V3(10 * h[0], -2, 0)); s.nrm.push_back(V3(0, 1, 0)); } } v.push_back(s); }
+    { Scene s; s.name = "corridor + end wall 500 points over 12 m, centred 17 m from the origin"; for (int i = 0; i < 500; ++i) { auto h = regref::pattern(i); V3 q; V3 n; if (i % 5 == 0) { q = V3(6, 2 * h[1], 0); n = V3(-1, 0, 0); } else if (i % 2) { q = V3(6 * h[0], 2, 0); n = V3(0, -1, 0); } else { q = V3(6 * h[0], -2, 0); n = V3(0, 1, 0); } s.pts.push_back(q + V3(12, -12, 0)); s.nrm.push_back(n); } v.push_back(s); }
     { Scene s; s.name = "mixed normal field 30 points"; for (int i = 0; i < 30; ++i) { auto h = regref::pattern(i + 3); LD a = 2.1L * i; s.pts.push_back(V3(4 * h[0], 3 * h[1], 0)); s.nrm.push_back(V3(cosl(a), sinl(a), 0)); } v.push_back(s); }
   } else {
     { Scene s; s.name = "box faces 6 points"; s.pts = {V3(1, 0.2, 0.1), V3(-1, -0.3, 0.4), V3(0.3, 1, -0.2), V3(-0.2, -1, 0.5), V3(0.1, 0.4, 1), V3(0.5, -0.6, -1)}; s.nrm = {V3(1, 0, 0), V3(-1, 0, 0), V3(0, 1, 0), V3(0, -1, 0), V3(0, 0, 1), V3(0, 0, -1)}; v.push_back(s); }
     { Scene s; s.name = "box faces 96 points"; for (int i = 0; i < 4; ++i) for (int j = 0; j < 4; ++j) { double a = -0.75 + 0.5 * i + 0.02 * j, b = -0.75 + 0.5 * j - 0.03 * i; s.pts.push_back(V3(1, a, b)); s.nrm.push_back(V3(1, 0, 0)); s.pts.push_back(V3(-1, a, b)); s.nrm.push_back(V3(-1, 0, 0)); s.pts.push_back(V3(a, 1, b)); s.nrm.push_back(V3(0, 1, 0)); s.pts.push_back(V3(a, -1, b)); s.nrm.push_back(V3(0, -1, 0)); s.pts.push_back(V3(a, b, 1)); s.nrm.push_back(V3(0, 0, 1)); s.pts.push_back(V3(a, b, -1)); s.nrm.push_back(V3(0, 0, -1)); } v.push_back(s); }
     { Scene s; s.name = "sphere 50 points radius 2 about (1,-3,4)"; for (int i = 0; i < 50; ++i) { auto h = regref::pattern(i + 11); V3 d(h[0], h[1], h[2]); d.normalize(); s.pts.push_back(V3(1, -3, 4) + 2 * d); s.nrm.push_back(d); } v.push_back(s); }
     { Scene s; s.name = "room 500 points over 20 m"; for (int i = 0; i < 500; ++i) { auto h = regref::pattern(i + 1); int f = i % 6; V3 p(10 * h[0], 10 * h[1], 3 * h[2]), n(0, 0, 0); if (f == 0) { p[0] = 10; n[0] = -1; } else if (f == 1) { p[0] = -10; n[0] = 1; } else if (f == 2) { p[1] = 10; n[1] = -1; } else if (f == 3) { p[1] = -10; n[1] = 1; } else if (f == 4) { p[2] = 3; n[2] = -1; } else { p[2] = -3; n[2] = 1; } s.pts.push_back(p); s.nrm.push_back(n); } v.push_back(s); }
+    { Scene s; s.name = "room 500 points over 12 m, centred 17 m from the origin"; for (int i = 0; i < 500; ++i) { auto h = regref::pattern(i + 1); int f = i % 6; V3 p(6 * h[0], 6 * h[1], 2 * h[2]), n(0, 0, 0); if (f == 0) { p[0] = 6; n[0] = -1; } else if (f == 1) { p[0] = -6; n[0] = 1; } else if (f == 2) { p[1] = 6; n[1] = -1; } else if (f == 3) { p[1] = -6; n[1] = 1; } else if (f == 4) { p[2] = 2; n[2] = -1; } else { p[2] = -2; n[2] = 1; } s.pts.push_back(p + V3(12, -11, 5)); s.nrm.push_back(n); } v.push_back(s); }
     { Scene s; s.name = "mixed normal field 40 points"; for (int i = 0; i < 40; ++i) { auto h = regref::pattern(i + 5), g = regref::pattern(i + 77); V3 d(g[0], g[1], g[2] + 0.01); d.normalize(); s.pts.push_back(V3(3 * h[0], 3 * h[1], 2 * h[2])); s.nrm.push_back(d); } v.push_back(s); }
   }
   return v;
@@ -83,7 +85,7 @@ template <class PT> void run_scene(vf::Ctx& c, const char* tname, const Scene& s
       if (!(kap * kap < 1e6L)) { c.trivial(); continue; }   // quantifier: condition number of the normal matrix below 1e6
       LV xref = J.householderQr().solve(Y);
       LD tol = 4 * P * eps * kap * kap * (xref.norm() + Y.norm() / smax) + 16 * eps * (1 + extent + tr.norm());
-      if (64 * P * eps * kap * kap > 0.05L) { c.trivial(); continue; }
+      if (4 * P * eps * kap * kap > 0.25L) { c.trivial(); continue; }   // the forward-error bound exceeds a quarter of the solution: no digits in this scalar type
       LV firstX; bool haveFirst = false;
       for (int ov = 0; ov < 5; ++ov) {
         // 0 index-based fresh, 1 index-based on the reused estimator, 2 aligned (identity correspondences only), 3/4 preconditioned scale 1e-3 / 1e3 with setPreconditioner
@@ -96,7 +98,7 @@ template <class PT> void run_scene(vf::Ctx& c, const char* tname, const Scene& s
           S scale = ov == 3 ? (S)1e-3 : (S)1e3;
           LM Js; LV Ys; build((LD)scale, Js, Ys);
           Eigen::JacobiSVD<LM> sv2(Js); LD k2 = sv2.singularValues()(0) / sv2.singularValues()(P - 1);
-          if (64 * P * eps * k2 * k2 > 0.05L) { c.trivial(); continue; }   // the scaled system carries no digits in this precision
+          if (4 * P * eps * k2 * k2 > 0.25L) { c.trivial(); continue; }   // the scaled system carries no digits in this precision
           LV xs = Js.householderQr().solve(Ys);
           tolUse = tol + (64 * P * eps * k2 * k2 * (xs.norm() + Ys.norm() / sv2.singularValues()(0))) / std::min<LD>(1, (LD)scale) * 1;
           PreconditionedPointSet<PT> ps(src, scale), pt(tgtU, scale);
@@ -176,7 +178,7 @@ template <class PT> void run_sequences(vf::Ctx& c, const char* tname, const Scen
       Y(r) = (tP - sP).dot(nn);
     }
     Eigen::JacobiSVD<LM> svd(J); LD smax = svd.singularValues()(0), kap = smax / svd.singularValues()(P - 1);
-    usable[op] = 64 * P * eps * kap * kap <= 0.05L;
+    usable[op] = 4 * P * eps * kap * kap <= 0.25L;
     LV xs = J.householderQr().solve(Y);
     LD tt = 8 * P * eps * kap * kap * (xs.norm() + Y.norm() / smax) + 16 * eps * (1 + tr.norm());
     tolOp[op] = tt / std::min<LD>(1, scale) + tt;
@@ -225,17 +227,59 @@ template <class PT> void run_sequences(vf::Ctx& c, const char* tname, const Scen
   }
 }
 
+// ---- every correspondence count from P to 500 (the statement quantifies over all of them) ----------------------------------------
+template <class PT> void all_sizes(vf::Ctx& c, const char* tname, const Scene& sc) {
+  using S = typename PT::Scalar; constexpr int DIM = PointTraits<PT>::DIM; constexpr int P = DIM == 2 ? 3 : 6;
+  using H = Eigen::Matrix<S, DIM + 1, DIM + 1>;
+  LD eps = std::numeric_limits<S>::epsilon();
+  size_t N = sc.pts.size();
+  V3 ax = DIM == 2 ? V3(0, 0, 1) : V3(1, -1, 1).normalized(); LD theta = 0.02L; V3 tr(0.05L, -0.02L, DIM == 3 ? 0.03L : 0);
+  M3 K; K << 0, -ax[2], ax[1], ax[2], 0, -ax[0], -ax[1], ax[0], 0; M3 R = M3::Identity() + sinl(theta) * K + (1 - cosl(theta)) * K * K;
+  PointSet<PT> srcAll, tgtAll; NormalSet<PT> nrmAll;
+  for (size_t i = 0; i < N; ++i) { V3 q = sc.pts[i]; V3 p = R.transpose() * (q - tr); auto h = regref::pattern((unsigned)(i + 13)); p += 0.01L * V3(h[0], h[1], DIM == 3 ? h[2] : 0); srcAll.push_back(mkp<PT>(p)); tgtAll.push_back(mkp<PT>(q)); nrmAll.push_back(mkp<PT>(sc.nrm[i], true)); }
+  FindRigidTransformationByLeastSquares<PT> reused;
+  for (size_t n = 2 * P; n <= N; ++n) {
+    LM J(n, P); LV Y(n);
+    for (size_t r = 0; r < n; ++r) {
+      V3 sP = V3::Zero(), tP = V3::Zero(), nn = V3::Zero();
+      for (int d = 0; d < DIM; ++d) { sP[d] = (LD)srcAll[r][d]; tP[d] = (LD)tgtAll[r][d]; nn[d] = nrmAll[r][d]; }
+      V3 cr = sP.cross(nn);
+      if (DIM == 2) { J(r, 0) = nn[0]; J(r, 1) = nn[1]; J(r, 2) = cr[2]; } else { for (int d = 0; d < 3; ++d) { J(r, d) = nn[d]; J(r, 3 + d) = cr[d]; } }
+      Y(r) = (tP - sP).dot(nn);
+    }
+    Eigen::JacobiSVD<LM> svd(J); LD smax = svd.singularValues()(0), kap = smax / svd.singularValues()(P - 1);
+    if (!(kap * kap < 1e6L) || 4 * P * eps * kap * kap > 0.25L) { c.trivial(); continue; }
+    LV xref = J.householderQr().solve(Y);
+    LD tol = 4 * P * eps * kap * kap * (xref.norm() + Y.norm() / smax) + 16 * eps * (1 + tr.norm());
+    PointSet<PT> src(srcAll.begin(), srcAll.begin() + n), tgt(tgtAll.begin(), tgtAll.begin() + n); NormalSet<PT> nrm(nrmAll.begin(), nrmAll.begin() + n);
+    std::vector<Correspondence> cor; for (size_t i = n; i-- > 0;) cor.emplace_back(i, i);
+    for (int ov = 0; ov < 3; ++ov) {   // aligned on a fresh estimator, index-based (on the full sets) on a fresh estimator, index-based on one estimator reused for every size
+      H got; if (ov == 0) { FindRigidTransformationByLeastSquares<PT> e; got = e.find(src, tgt, nrm); } else if (ov == 1) { FindRigidTransformationByLeastSquares<PT> e; got = e.find(srcAll, tgtAll, nrmAll, cor); } else got = reused.find(srcAll, tgtAll, nrmAll, cor);
+      c.eval(); c.nontrivial();
+      bool shape; LV x = params_of<PT>(got, shape);
+      for (int j = 0; j < P; ++j) c.obs((double)x[j]);
+      LD err = x.allFinite() ? (x - xref).norm() : HUGE_VALL;
+      c.note_max(std::string("all_sizes_err_over_tol_") + tname, (double)(err / tol));
+      if (!shape || !(err <= tol)) { c.violation("FindRigidTransformationByLeastSquares.find.notLeastSquaresSolution", vf::JO().str("type", tname).str("scene", sc.name).str("explorer", "all sizes").u("correspondences", n).i("overload", ov).num("kappa_J", kap).done(), vf::JO().num("param_err", err).num("tol", tol).done()); break; }
+    }
+  }
+}
+
 const char* kTypes[] = {"Vector2d", "Vector2f", "Homogeneous2d", "Homogeneous2f", "Vector3d", "Vector3f", "Homogeneous3d", "Homogeneous3f"};
 std::vector<Scene> g2, g3;
 void init() { if (g2.empty()) { g2 = scenes(2); g3 = scenes(3); } }
 
 }  // namespace
 
-uint64_t vf_ncases(const std::string& tier) { init(); return 4 * g2.size() + 4 * g3.size() + 8 * 18 + 8; }
+uint64_t vf_ncases(const std::string& tier) { init(); return 4 * g2.size() + 4 * g3.size() + 8 * 18 + 8 + 8; }
 
 void vf_run(uint64_t idx, const std::string& tier, vf::Ctx& c) {
   init();
   uint64_t nl = 4 * g2.size() + 4 * g3.size();
+  if (idx >= nl + 8 * 18 + 8) { int t = (int)(idx - nl - 8 * 18 - 8);
+    switch (t) { case 0: all_sizes<Eigen::Vector2d>(c, kTypes[0], g2[3]); break; case 1: all_sizes<Eigen::Vector2f>(c, kTypes[1], g2[3]); break; case 2: all_sizes<HomogeneousCoordinates2d>(c, kTypes[2], g2[3]); break; case 3: all_sizes<HomogeneousCoordinates2f>(c, kTypes[3], g2[3]); break;
+      case 4: all_sizes<Eigen::Vector3d>(c, kTypes[4], g3[3]); break; case 5: all_sizes<Eigen::Vector3f>(c, kTypes[5], g3[3]); break; case 6: all_sizes<HomogeneousCoordinates3d>(c, kTypes[6], g3[3]); break; default: all_sizes<HomogeneousCoordinates3f>(c, kTypes[7], g3[3]); }
+    return; }
   if (idx >= nl) { int t = (int)(idx - nl) / 18, f = (int)(idx - nl) % 18; if (idx - nl >= 8 * 18) { t = (int)(idx - nl) - 8 * 18; f = -1; } int d = tier == "thorough" ? 6 : 3;
     switch (t) { case 0: run_sequences<Eigen::Vector2d>(c, kTypes[0], g2[1], d, f); break; case 1: run_sequences<Eigen::Vector2f>(c, kTypes[1], g2[1], d, f); break; case 2: run_sequences<HomogeneousCoordinates2d>(c, kTypes[2], g2[1], d, f); break; case 3: run_sequences<HomogeneousCoordinates2f>(c, kTypes[3], g2[1], d, f); break;
       case 4: run_sequences<Eigen::Vector3d>(c, kTypes[4], g3[1], d, f); break; case 5: run_sequences<Eigen::Vector3f>(c, kTypes[5], g3[1], d, f); break; case 6: run_sequences<HomogeneousCoordinates3d>(c, kTypes[6], g3[1], d, f); break; default: run_sequences<HomogeneousCoordinates3f>(c, kTypes[7], g3[1], d, f); }
@@ -246,7 +290,7 @@ void vf_run(uint64_t idx, const std::string& tier, vf::Ctx& c) {
     switch (t) { case 0: run_scene<Eigen::Vector3d>(c, kTypes[4], s, tier == "thorough"); break; case 1: run_scene<Eigen::Vector3f>(c, kTypes[5], s, tier == "thorough"); break; case 2: run_scene<HomogeneousCoordinates3d>(c, kTypes[6], s, tier == "thorough"); break; default: run_scene<HomogeneousCoordinates3f>(c, kTypes[7], s, tier == "thorough"); } }
 }
 
-std::string vf_case_params(uint64_t idx, const std::string& tier) { init(); if (idx >= 4 * g2.size() + 4 * g3.size()) return vf::JO().u("case", idx).str("explorer", "S").str("type", kTypes[(idx - 4 * g2.size() - 4 * g3.size()) >= 144 ? (idx - 4 * g2.size() - 4 * g3.size()) - 144 : (idx - 4 * g2.size() - 4 * g3.size()) / 18]).i("first_op", (idx - 4 * g2.size() - 4 * g3.size()) >= 144 ? -1 : (int)((idx - 4 * g2.size() - 4 * g3.size()) % 18)).done(); bool is2 = idx < 4 * g2.size(); uint64_t r = is2 ? idx : idx - 4 * g2.size(); const auto& g = is2 ? g2 : g3; return vf::JO().u("case", idx).str("type", kTypes[(is2 ? 0 : 4) + r / g.size()]).str("scene", g[r % g.size()].name).done(); }
+std::string vf_case_params(uint64_t idx, const std::string& tier) { init(); if (idx >= 4 * g2.size() + 4 * g3.size() + 152) return vf::JO().u("case", idx).str("explorer", "all sizes").str("type", kTypes[idx - 4 * g2.size() - 4 * g3.size() - 152]).done(); if (idx >= 4 * g2.size() + 4 * g3.size()) return vf::JO().u("case", idx).str("explorer", "S").str("type", kTypes[(idx - 4 * g2.size() - 4 * g3.size()) >= 144 ? (idx - 4 * g2.size() - 4 * g3.size()) - 144 : (idx - 4 * g2.size() - 4 * g3.size()) / 18]).i("first_op", (idx - 4 * g2.size() - 4 * g3.size()) >= 144 ? -1 : (int)((idx - 4 * g2.size() - 4 * g3.size()) % 18)).done(); bool is2 = idx < 4 * g2.size(); uint64_t r = is2 ? idx : idx - 4 * g2.size(); const auto& g = is2 ? g2 : g3; return vf::JO().u("case", idx).str("type", kTypes[(is2 ? 0 : 4) + r / g.size()]).str("scene", g[r % g.size()].name).done(); }
 
 std::string vf_describe(const std::string& tier) {
   init(); vf::JO o; std::vector<std::string> a, b; for (auto& s : g2) a.push_back(s.name); for (auto& s : g3) b.push_back(s.name);
@@ -256,6 +300,7 @@ std::string vf_describe(const std::string& tier) {
   o.str("correspondences", "identity, subset in reversed order, target and normals stored permuted (source index != target index)");
   o.str("overloads", "index-based on a fresh estimator, index-based on one estimator reused for the whole scene, aligned, preconditioned by 1e-3 and 1e3 with setPreconditioner");
   o.str("S", std::string("every sequence of ") + (tier == "thorough" ? "6" : "3") + " operations out of 18 (all / half of the points x index-based / aligned x {find on sets scaled as configured, setPreconditioner with scale 1, 0.05, 40 then find}; assign the estimator to another long-lived estimator and continue with that one; continue with a copy-constructed estimator) on ONE estimator, 8 point types, 40-point square / 96-point box with a 0.09 rad motion and perturbed sources; every answer within twice the forward-error bound of the answer of a fresh estimator");
+  o.str("all_sizes", "every correspondence count from 2P to 500 on the 500-point corridor / room scene (0.02 rad motion, perturbed sources), aligned and index-based overloads on fresh estimators and index-based on one estimator reused for every size, all 8 point types, vs the QR reference");
   o.str("S_long", "per point type: a fixed script of 30 calls cycling through the 16 find operations on one estimator, and every variant with ONE position replaced by any of the 18 operations (deviation bound 1); same oracle after every call");
   o.str("oracle", "J and Y rebuilt from the definition in long double; parameters vs Householder-QR solution within 4 p eps kappa^2 (|x|+|Y|/smax); identity+skew+translation shape; normal-equation residual; all overloads agree; pure translation exact; rotation error <= 2 kappa theta^2 (extent+|t|+1) sqrt(p); kappa(J)^2 >= 1e6 or no digits in the scalar type => outside the quantifier (trivial)");
   return o.done();
